@@ -50,9 +50,15 @@ def write_dat(path, case, tab, magtab, swap):
         ma = dtext(dec(m0, k - 1, dm))
         mb = dtext(dec(m0, k, dm)) if k < case['nm'] else '10'
         sp = [lat0, lat1, lon0, lon1] if swap else [lon0, lon1, lat0, lat1]
-        lines.append('\t'.join(sp + ['0', '30', ma, mb, repr(rate_value(row['rate'])), str(row['flag'])]))
+        # the same file in three dialects of the whitespace-separated format: tabs and shortest decimals; several blanks,
+        # rates in exponent notation; blanks, a leading blank, no final line break
+        dialect = (len(case['file']) + case['nm'] + (1 if swap else 0)) % 3
+        rate = rate_value(row['rate'])
+        rtext = repr(rate) if dialect == 0 else '%.17e' % rate
+        sep = ['\t', '   ', ' '][dialect]
+        lines.append((' ' if dialect == 2 else '') + sep.join(sp + ['0', '30', ma, mb, rtext, str(row['flag'])]))
     with open(path, 'w') as f:
-        f.write('\n'.join(lines) + '\n')
+        f.write('\n'.join(lines) + ('' if dialect == 2 else '\n'))
 
 
 def run(chk, replay=None):
